@@ -1,6 +1,7 @@
 package props
 
 import (
+	"context"
 	"fmt"
 	"math"
 	"os"
@@ -9,6 +10,7 @@ import (
 	"slices"
 	"strings"
 	"sync"
+	"time"
 
 	"github.com/fluhus/biostuff/regions"
 
@@ -137,6 +139,13 @@ func listsOver(coords []int, maxLen int, f func(starts, ends []int) bool) {
 }
 
 func runC16(r *core.Run) {
+	// The schedule exploration runs first: it owns every interleaving of concurrent At calls, so a
+	// change that makes them disturb or block each other is reported here with its schedule, and the
+	// clauses that follow - which are about what ONE caller sees - then run one case at a time instead
+	// of meeting the same disturbance (or a real deadlock) among the harness's own workers.
+	if c16Schedules(r) {
+		r.OneWorkerFromNow()
+	}
 	firstCallClause(r, "regions")
 	N := core.Pick(r, 3, 6)
 	r.Bound("lists", fmt.Sprintf("all ordered lists of 0..%d intervals with start,end in {-1,0,1,2}; all lists of 0..2 intervals over {MinInt,-1,0,1,MaxInt}; every position = each coordinate, +-1, 0, MinInt, MaxInt", N))
@@ -563,8 +572,6 @@ func runC16(r *core.Run) {
 			}
 			return core.Outcome{Class: "clean", Nontrivial: true, Evals: 91 * 8}
 		})
-
-	c16Schedules(r)
 }
 
 func tailLines(s string, n int) string {
@@ -592,9 +599,15 @@ func runHidden(r *core.Run, name string, race bool) (string, int, error) {
 	if b, err := cmd.CombinedOutput(); err != nil {
 		return string(b), -1, fmt.Errorf("go build: %v", err)
 	}
-	run := exec.Command(bin, "__hidden", name)
+	ctx, cancel := context.WithTimeout(context.Background(), 4*time.Minute)
+	defer cancel()
+	run := exec.CommandContext(ctx, bin, "__hidden", name)
 	run.Env = append(os.Environ(), "GORACE=halt_on_error=0 exitcode=66")
 	b, err := run.CombinedOutput()
+	if ctx.Err() != nil {
+		// a free-running body takes seconds; one that is still going after minutes is blocked
+		return string(b) + "\nthe free-running pass did not finish within 4 minutes: the concurrent calls block each other forever (or spin)\n", 99, nil
+	}
 	if err != nil {
 		if ee, ok := err.(*exec.ExitError); ok {
 			return string(b), ee.ExitCode(), nil
